@@ -50,6 +50,10 @@ def save_case(ctx, op_line, tag):
 
 def classify(op, impl, model):
     """(is_property_failure_on_impl, description)"""
+    if op.startswith("fmt repfile") and impl != model:
+        return True, "a device file the store flushed and closed does not represent a tiling of its data area by exactly the store's own index (Fmt.repTiledB; by Fmt.repTiled_sound a recovery would not find exactly these records): " + model[:160]
+    if op.startswith("fmt reptiled") and impl != model:
+        return True, "the device as a successful recovery leaves it does not represent a tiling of its data area by exactly the recovered index (Fmt.repTiledB): " + model[:160]
     if impl.startswith("panic"):
         return True, "the implementation panicked: " + impl[:120]
     if "FILE-MODIFIED" in impl:
